@@ -16,6 +16,7 @@ from ..terms import term_s, subterms, analyse_iter
 from ..summ import (Summ, access, call_parts, block_stmts, marker_stmts, marker_of_pat, marker_of_expr, marker_of_type, atoms_after_loop)
 from ..facts import Facts, atom_s
 from ..genast import is_marker, marker_name
+from .search import check_search_loops
 from .c09 import member_from_selection, binder_of_selection
 
 INTO = '::core::convert::Into::into'
@@ -67,12 +68,18 @@ def check_single_method(S, m1, F, T, attrs_var_ok):
     return inner[3] == ('some_of', g)
 
 
+
+
 def validate_into_var(S, var, F, T, attrs_var_ok, label, site):
     d = S.tm.def_by_id(var[1])
     if d is None:
         return 'selection variable not found'
     somes = [a for a in d.assigns if a.value['k'] == 'Call' and es(a.value['func']) == 'Some']
-    nones = [a for a in d.assigns if es(a.value) == 'None']
+    auto = check_search_loops(S, d, var)
+    if isinstance(auto, str):
+        return auto
+    if len(auto) != 2:
+        return '%d search loops (expected two: explicit marker, unique same-typed field)' % len(auto)
     if len(somes) != 2:
         return '%d designation assignments (expected two: explicit marker, unique same-typed field)' % len(somes)
     kinds = set()
@@ -506,6 +513,8 @@ def run(cx, tier='quick'):
     check_hash_type_tokens(cx, rep)
     check_type_with_meta(cx, rep, 'SUM-INTO')
     check_ident_or_index(cx, rep)
+    from .scope import check_scopes
+    check_scopes(cx, rep, ['::into::'])
     rep.floor('SUM-INTO', 8)
     rep.floor('SEL+DUP', 4)
     rep.assumptions += ['type equality is educe\'s documented notion: equality of token strings']
